@@ -61,6 +61,9 @@ structure Entry where
   /-- `deadline_remainder` (ns): how much of the time until the deadline the timer has not been armed with yet;
   nonzero only for deadlines further away than the clamp -/
   remainder : Nat
+  /-- `timer_due` (ns): the exact instant the armed timer is due (`now + timeout` at the time it was armed); the
+  queue itself fires at the next millisecond tick -/
+  dueAt : Nat
 deriving Repr, DecidableEq
 
 structure St where
@@ -273,7 +276,7 @@ def insertRequest (s : St) (now : Nat) (r : DReq) : Option St :=
     | (_, .panic, _) => some (emit { s with poisoned := true } (.panic (tid s) "DelayQueue::insert: invalid deadline"))
     | (q, .ok key, woke) =>
         -- an insert that moves the queue's `Sleep` earlier wakes the stored waker: a self-wake
-        let s := { s with timers := q, inflight := s.inflight ++ [{ id := r.id, cid := r.cid, ctx := r.ctx, timerKey := key, remainder := (r.ctx.deadline - now) - clampTimeout (r.ctx.deadline - now) }] }
+        let s := { s with timers := q, inflight := s.inflight ++ [{ id := r.id, cid := r.cid, ctx := r.ctx, timerKey := key, remainder := (r.ctx.deadline - now) - clampTimeout (r.ctx.deadline - now), dueAt := now + clampTimeout (r.ctx.deadline - now) }] }
         some (if woke then wakeDispatch s else s)
 
 /-! ### the write pump -/
@@ -388,8 +391,8 @@ def pollWriteCancel (s : St) : St × PW Unit :=
 
 /-- The timer of request `id` fired while `deadline_remainder` is nonzero: the entry gets the new timer key and what
 is left of the remainder. -/
-def rearmEntry (id key t : Nat) (x : Entry) : Entry :=
-  if x.id == id then { x with timerKey := key, remainder := x.remainder - t } else x
+def rearmEntry (id key t due : Nat) (x : Entry) : Entry :=
+  if x.id == id then { x with timerKey := key, remainder := x.remainder - t, dueAt := due } else x
 
 /-- One iteration of the loop of `in_flight_requests.poll_expired`. -/
 inductive ExpStep where
@@ -405,27 +408,30 @@ def ExpStep.st : ExpStep → St
 tracked request `id`.  A panicking insert poisons the dispatch (`pumpWrite` stops; the state is frozen as it was
 before this iteration — it is never looked at again); otherwise the entry gets the new key and the rest of the
 remainder, the insert's self-wake is delivered, and the queue is polled again. -/
-def rearmWith (s : St) (id t : Nat) : DelayQ × DelayQ.InsertRes × Bool → ExpStep
+def rearmWith (s : St) (id t due : Nat) : DelayQ × DelayQ.InsertRes × Bool → ExpStep
   | (_, .panic, _) =>
       .done (emit { s with poisoned := true } (.panic (tid s) "DelayQueue::insert: invalid deadline")) false
   | (q', .ok key, woke) =>
-      .again (if woke then wakeDispatch { s with timers := q', inflight := s.inflight.map (rearmEntry id key t) }
-              else { s with timers := q', inflight := s.inflight.map (rearmEntry id key t) })
+      .again (if woke then wakeDispatch { s with timers := q', inflight := s.inflight.map (rearmEntry id key t due) }
+              else { s with timers := q', inflight := s.inflight.map (rearmEntry id key t due) })
 
-/-- The timer of tracked request `id` (entry `en`) fired `late` ns ago and `rest = deadline_remainder - late` is
-nonzero; `q` is the queue after the poll.  The timer is re-armed with (a clamped part of) `rest`; the entry's
-remainder loses the lateness and the armed timeout (`rearmEntry … (late + timeout)`). -/
+/-- The timer of tracked request `id` (entry `en`) was due `late` ns ago (`late = now - timer_due`) and
+`rest = deadline_remainder - late` is nonzero; `q` is the queue after the poll.  The timer is re-armed with (a clamped
+part of) `rest`; the entry's remainder loses the lateness and the armed timeout (`rearmEntry … (late + timeout)`),
+and its `timer_due` becomes `now + timeout`. -/
 def rearm (s : St) (q : DelayQ) (now id : Nat) (en : Entry) (late : Nat) : ExpStep :=
-  rearmWith s id (late + clampTimeout (en.remainder - late)) (q.insert now (clampTimeout (en.remainder - late)) id)
+  rearmWith s id (late + clampTimeout (en.remainder - late)) (now + clampTimeout (en.remainder - late))
+    (q.insert now (clampTimeout (en.remainder - late)) id)
 
 /-- What one iteration of `poll_expired`'s loop does with the result of polling the `DelayQueue`.
-`now - e.whenMs * nsPerMs` is `late`: how long ago the yielded timer was due (`Expired::deadline()` is the queue's
-own, ms-rounded-up deadline). -/
+`now - en.dueAt` is `late`: how long ago the yielded timer was due, measured from the exact `timer_due` the entry
+recorded when the timer was armed (not from the queue's own, ms-rounded-up deadline: that let every re-arm drift by up
+to 1 ms). -/
 def expireWith (s : St) (now : Nat) : DelayQ × DelayQ.PollRes → ExpStep
   | (q, .expired e) =>
       match findEntry s e.val with
       | some en =>
-          if en.remainder - (now - e.whenMs * nsPerMs) != 0 then rearm s q now e.val en (now - e.whenMs * nsPerMs)
+          if en.remainder - (now - en.dueAt) != 0 then rearm s q now e.val en (now - en.dueAt)
           else .done (osSend { s with timers := q, inflight := s.inflight.filter (·.id != e.val) } en.cid .deadline) true
       | none => .done { s with timers := q } true
   | (q, _) => .done { s with timers := q } false
